@@ -1,6 +1,7 @@
 """./check configuration for C07 (hosts-file record grammar and round trip)."""
 
 PROP = dict(
+    technique='Lean refinement of the two-pass cutter to a field-list specification, error classification, round trip under ADDR-RT; differential tie with an oracle table for idna',
     module="GolibsVerif.Theorems.C07", namespace="GolibsVerif.C07",
     rule="lines from a hosts(5) grammar (address: v4 / v6 / zone / 4in6 / mutated; 0..6 names: plain, IDN, over-long labels and "
          "names, invalid UTF-8, CR; separators: space/tab mixes; leading/trailing blanks; comments before, between, inside and after "
